@@ -292,6 +292,19 @@ def run(repo: Repo, tier: str) -> Report:
     grp = gl.stmt.target.id
     okg = isinstance(gl.stmt.iter, ast.Call) and ast.unparse(gl.stmt.iter) == f"range({ng})"
     ob("R-COVER", "every group 0..num_groups-1 is processed", okg, f"loop: {norm_stmt(gl.stmt)}", gl.stmt, fn="mean_grp")
+    # the value written for a group is computed in that group's iteration: no definition from before the group loop (or, through it, from an
+    # earlier group) may reach the scatter - a group without valid cells would otherwise repeat its predecessor's mean instead of nodata
+    from ..dataflow import ReachingDefs
+    rd_ = ReachingDefs(dm.cfg)
+    in_gl = {id(x) for x in ast.walk(gl.stmt)}
+    for n in dm.cfg.stmt_nodes():
+        st = n.stmt
+        if n.kind == "stmt" and isinstance(st, ast.Assign) and isinstance(st.targets[0], ast.Subscript) and isinstance(st.targets[0].value, ast.Name) \
+                and st.targets[0].value.id == gy and isinstance(st.value, ast.Name) and id(st) in in_gl:
+            outside = [d_ for d_ in rd_.reaching(n, st.value.id) if d_.stmt is not None and id(d_.stmt) not in in_gl]
+            ob("R-LOOPCARRY", "the value scattered for a group is defined in that group's own iteration on every path", not outside,
+               f"`{norm_stmt(outside[0].stmt)}` (line {outside[0].line}, outside the group loop) reaches `{norm_stmt(st)}`: on the path that assigns nothing "
+               f"(no valid cell in the group) the previous group's value is written" if outside else "", st, fn="mean_grp")
     # gather / scatter
     gather = scatter = None
     for n in dm.cfg.stmt_nodes():
